@@ -32,6 +32,12 @@ Theorem C12_pv_pool_subset : forall fb roots psel, wf roots = true ->
   if is_nil psel then total tot_pv roots else total (tot_sel (pv_sel psel)) roots.
 Proof. exact pv_pool_formula. Qed.
 
+(* an EV-charger pool over a subset of the chargers: exactly the requested chargers, also when they
+   sit behind an EV-charger meter together with others *)
+Theorem C12_ev_pool_subset : forall roots esel,
+  eval (ev_pool_terms roots esel) = total (tot_sel (ev_sel esel)) roots.
+Proof. exact ev_pool_formula. Qed.
+
 Theorem C12_ev : forall roots, eval (ev_terms roots) = total tot_ev roots.
 Proof. exact ev_formula. Qed.
 
@@ -145,6 +151,7 @@ Print Assumptions C12_pv.
 Print Assumptions C12_pv_pool.
 Print Assumptions C12_battery_pool.
 Print Assumptions C12_pv_pool_subset.
+Print Assumptions C12_ev_pool_subset.
 Print Assumptions C12_ev.
 Print Assumptions C12_chp.
 Print Assumptions C12_battery.
